@@ -263,11 +263,14 @@ def d1(ctx):
     reads = [c for c in calls_under(fn) if call_name(c) == '_C.is_dict_insertion_ordered']
     sets = [c for c in calls_under(fn) if call_name(c) == '_C.set_dict_insertion_ordered']
     yields = [n for n in walk(fn) if isinstance(n, (ast.Yield, ast.YieldFrom))]
-    ctx.require(len(reads) == 1 and len(sets) == 2,
+    ctx.require(len(reads) >= 1 and len(sets) >= 2,
                 'dict_insertion_ordered: %d reads / %d sets of the mode' % (len(reads), len(sets)))
     ctx.check('dict_insertion_ordered/single-yield', len(yields) == 1,
               'exactly one yield', '%d yields' % len(yields), mod.loc(fn))
-    rd = reads[0]
+    # the read whose result is stored is the saved previous flag
+    stored = [r for r in reads if any(isinstance(s_, ast.Assign) and s_.value is r for s_ in walk(fn))]
+    ctx.require(len(stored) == 1, 'dict_insertion_ordered: %d stored reads of the mode' % len(stored))
+    rd = stored[0]
     kw = {k.arg: k.value for k in rd.keywords}
     own = (len(rd.args) >= 1 and is_name(rd.args[0], 'namespace') and
            ((isinstance(kw.get('inherit_global_namespace'), ast.Constant) and
@@ -344,21 +347,14 @@ def d1(ctx):
 
 
 # ---------------------------------------------------------------------------------------------
-def _kind_guard(call, parent):
-    """True if `call` is control dependent on `<x>.kind != PyTreeKind::OrderedDict` (true edge) or
-    sits in a switch arm that does not include OrderedDict"""
-    for a in ancestors(call, parent):
-        if a.kind == 'IfStmt':
-            cond = a.kids[0]
-            then = a.kids[1] if len(a.kids) > 1 else None
-            in_then = then is not None and any(x is call for x in then.walk())
-            for atom, pol in _conj_atoms(cond, in_then):
-                if atom.kind == 'BinaryOperator' and atom.op in ('!=', '=='):
-                    l, r = atom.kids
-                    names = {member_path(l), member_path(r)}
-                    if 'OrderedDict' in names and any(n and n.split('.')[-1] == 'kind' for n in names):
-                        if (atom.op == '!=') == pol:
-                            return True
+def _kind_guard(func, call):
+    """the call is reached only when the kind is known not to be OrderedDict"""
+    from .traversal import kind_facts
+    kf = kind_facts(func, call)
+    if ('OrderedDict', False) in kf:
+        return True
+    if any(eq and en in ('Dict', 'DefaultDict') for en, eq in kf):
+        return True
     return False
 
 
@@ -389,7 +385,7 @@ def d2(ctx):
             inits = local_inits(f)
             for c in sorts:
                 sites += 1
-                kg = _kind_guard(c, parent)
+                kg = _kind_guard(f, c)
                 ctx.check(site + '/not-ordereddict', kg,
                           '%s: the sort is guarded by kind != OrderedDict' % inst(f),
                           '%s: dict keys are sorted without excluding OrderedDict' % inst(f), c.loc)
